@@ -14,6 +14,7 @@ ASSUMPTIONS = [
     "selection rule as documented in get_countries_to_run_and_skip: empty list = all countries; all codes prefixed '!' = all others; otherwise exactly the codes without '!'",
     "per-country fractions are observed by a wrapper on ScenarioRunnerNoTrade.run_optimizer_for_country; for selections that run (almost) the whole table the wrapper *replaces* the optimisation by a generated fraction in 0..2.5 (the property is about selection and aggregation), real optimisations are used for short inclusion lists and, in the thorough tier, for one complete table run",
     "population read from the input table; relative tolerance 1e-12 on the sums",
+    "sequence cases make 3-5 calls with different selection syntaxes on one ScenarioRunnerNoTrade object; every call is audited against its own list only",
 ]
 WATCHDOG_S = {"quick": 1500, "thorough": 4 * 3600}
 
@@ -53,6 +54,28 @@ def gen_cases(tier, seed):
         add(kind, lst, False)
     if tier == "thorough":
         add("empty", [], True, workload.base_country())
+    # several selections in turn on ONE runner object (as an interactive session or a batch script does): each call's
+    # selection is decided by its own list only
+    def one(kind):
+        if kind == "empty":
+            return []
+        if kind == "exclusion":
+            return ["!" + c for c in rnd.sample(isos, rnd.choice([1, 3, 29]))]
+        if kind == "exclusion_many":
+            return ["!" + c for c in rnd.sample(isos, len(isos) - rnd.choice([2, 3, 5]))]
+        if kind == "inclusion":
+            return rnd.sample(isos, rnd.choice([1, 2, 5, 40]))
+        a = rnd.sample(isos, 6)
+        lst = a[:3] + ["!" + c for c in a[3:]]
+        rnd.shuffle(lst)
+        return lst
+
+    for k in range(6 if tier == "quick" else 60):
+        kinds = [rnd.choice(["empty", "exclusion", "exclusion_many", "inclusion", "mixed"]) for _ in range(rnd.choice([3, 4, 5]))]
+        if k % 2 == 0:
+            kinds[:3] = rnd.choice([["inclusion", "exclusion_many", "inclusion"], ["exclusion", "inclusion", "empty"], ["mixed", "exclusion_many", "inclusion"]])
+        cases.append({"kind": "sequence_on_one_runner", "lists": [one(kk) for kk in kinds], "kinds": kinds, "real": False, "list": [],
+                      "opts": workload.base_country(), "gen_seed": rnd.randrange(10 ** 9), "id": "sequence#%d" % k})
     return cases
 
 
@@ -69,11 +92,35 @@ def expected_selection(lst, isos):
 def run_case(case, tier):
     from src.scenarios.run_model_no_trade import ScenarioRunnerNoTrade
 
+    if case["kind"] != "sequence_on_one_runner":
+        return audit_call(case, ScenarioRunnerNoTrade(), case["list"], case["kind"], random.Random(case["gen_seed"]))
+    runner = ScenarioRunnerNoTrade()
+    rnd = random.Random(case["gen_seed"])
+    viol, steps = [], []
+    for k, (lst, kind) in enumerate(zip(case["lists"], case["kinds"])):
+        r = audit_call(case, runner, lst, kind, rnd)
+        for v in r["viol"]:
+            v["mech"] = v["mech"] + "_on_reused_runner" if k else v["mech"]
+            v["msg"] = "call %d (%s) on a runner that already served %s: %s" % (k + 1, kind, case["kinds"][:k], v["msg"])
+            v["data"]["previous_kinds"] = case["kinds"][:k]
+            v["data"]["previous_lists_heads"] = [x[:4] for x in case["lists"][:k]]
+        viol += r["viol"]
+        steps.append(r["obs"])
+    done = [o for o in steps if o.get("audited")]
+    obs = {"kind": "sequence_on_one_runner", "real": False, "selected": sum(o["selected"] for o in done), "ran": sum(o["ran"] for o in done),
+           "fractions_above_one": sum(o["fractions_above_one"] for o in done), "audited": 1 if len(done) == len(steps) else 0, "net_pop": done[-1]["net_pop"] if done else 0,
+           "net_pop_fed": done[-1]["net_pop_fed"] if done else 0, "list_head": case["kinds"], "n_list": len(case["lists"]), "calls_in_sequence": len(done),
+           "failed": next((o.get("failed") for o in steps if o.get("failed")), None)}
+    return {"viol": viol, "obs": obs}
+
+
+def audit_call(case, runner, the_list, kind, rnd):
+    from src.scenarios.run_model_no_trade import ScenarioRunnerNoTrade
+
     table = workload.country_table()
     isos = [r["iso3"] for r in table]
     pop = {r["iso3"]: float(r["population"]) for r in table}
     name = {r["iso3"]: r["country"] for r in table}
-    rnd = random.Random(case["gen_seed"])
     log = []
     orig = ScenarioRunnerNoTrade.run_optimizer_for_country
 
@@ -94,24 +141,24 @@ def run_case(case, tier):
 
     ScenarioRunnerNoTrade.run_optimizer_for_country = wrapper
     opts = copy.deepcopy(case["opts"])
-    lst = list(case["list"])
+    lst = list(the_list)
     lst0 = list(lst)
     try:
         with contextlib.redirect_stdout(io.StringIO()):
-            out = ScenarioRunnerNoTrade().run_model_no_trade(title="agg", create_pptx_with_all_countries=False, show_country_figures=False, show_map_figures=False,
+            out = runner.run_model_no_trade(title="agg", create_pptx_with_all_countries=False, show_country_figures=False, show_map_figures=False,
                                                             add_map_slide_to_pptx=False, scenario_option=opts, countries_list=lst, return_results=True)
     except BaseException as e:  # noqa: BLE001
         if isinstance(e, KeyboardInterrupt):
             raise
         ScenarioRunnerNoTrade.run_optimizer_for_country = orig
-        return {"viol": [], "obs": {"kind": case["kind"], "failed": repr(e)[:150], "audited": 0, "selected": 0}}
+        return {"viol": [], "obs": {"kind": kind, "failed": repr(e)[:150], "audited": 0, "selected": 0}}
     finally:
         ScenarioRunnerNoTrade.run_optimizer_for_country = orig
     world, net_pop, net_pop_fed, results = out
     viol = []
 
     def bad(mech, msg, **d):
-        d.update(kind=case["kind"], list_head=lst0[:6], n_list=len(lst0))
+        d.update(kind=kind, list_head=lst0[:6], n_list=len(lst0))
         viol.append({"mech": mech, "msg": msg, "data": d})
 
     want = expected_selection(lst0, isos)
@@ -141,7 +188,7 @@ def run_case(case, tier):
     if sorted(results) != names:
         bad("results_do_not_match_selection", "returned results hold %d countries, selection has %d (e.g. missing %s)" % (len(results), len(names), sorted(set(names) - set(results))[:3]))
     over = sum(1 for _, f, _ in log if f > 1)
-    return {"viol": viol, "obs": {"kind": case["kind"], "real": case["real"], "selected": len(want), "ran": len(ran), "fractions_above_one": over, "audited": 1,
+    return {"viol": viol, "obs": {"kind": kind, "real": case["real"], "selected": len(want), "ran": len(ran), "fractions_above_one": over, "audited": 1,
                                    "net_pop": net_pop, "net_pop_fed": net_pop_fed, "list_head": lst0[:5], "n_list": len(lst0)}}
 
 
@@ -157,7 +204,11 @@ def summarize(cases, records, tier):
         "countries_aggregated_in_total": int(sum(r["obs"]["ran"] for r in ok)),
         "calls_with_a_fraction_above_one": sum(1 for r in ok if r["obs"]["fractions_above_one"] > 0),
         "failed_calls": [r["obs"].get("failed") for r in records if r.get("status") == "ok" and r["obs"].get("failed")][:5],
+        "sequences_on_one_runner": sum(1 for r in ok if r["obs"]["kind"] == "sequence_on_one_runner"),
+        "calls_on_a_reused_runner": int(sum(r["obs"].get("calls_in_sequence", 1) - 1 for r in ok if r["obs"]["kind"] == "sequence_on_one_runner")),
     }
+    if cov["calls_on_a_reused_runner"] == 0:
+        cov["inconclusive_reason"] = "no call on a reused runner object"
     if cov["calls_with_a_fraction_above_one"] == 0:
         cov["inconclusive_reason"] = "the cap at 1 was never exercised"
     if not any(r["obs"]["real"] for r in ok):
